@@ -116,27 +116,29 @@ def kind_of(op):
     return f[0] + (" " + f[1] if f[0] == "code" and len(f) > 1 else "")
 
 
-def refresh(ctx, test, name):
-    rc, out = ctx.go_test(PKG, test)
-    gen = os.path.join(ctx.work, name)
-    if rc != 0 or not os.path.exists(gen):
-        ctx.tie_failures.append("fact extraction %s failed (rc=%d): %s" % (test, rc, out[-500:]))
-        return False
-    with vf.Lock("gen"):
-        vf._overlay.write_if_changed(os.path.join(vf.LEAN, "AlgoVerif", "Gen", name), open(gen).read())
-    return True
+def refresh(ctx):
+    """tie F: both fact extractors in one `go test` invocation (one link of the package's test binary)"""
+    rc, out = ctx.go_test(PKG, "(TestVerifC34Facts|TestVerifC33Facts)")
+    for name in ("OpTable.lean", "AsmTable.lean"):
+        gen = os.path.join(ctx.work, name)
+        if rc != 0 or not os.path.exists(gen):
+            ctx.tie_failures.append("fact extraction for %s failed (rc=%d): %s" % (name, rc, out[-500:]))
+            continue
+        with vf.Lock("gen"):
+            vf._overlay.write_if_changed(os.path.join(vf.LEAN, "AlgoVerif", "Gen", name), open(gen).read())
 
 
 def run(ctx, replay_ops=None):
     ctx.overlay()
     ctx.assumptions += [
+        "asm_dis_asm is proved for token-level sources without the pseudo-ops int/byte/addr/method (hence without mixing pseudo-op constants with an explicit intc/bytec N>=4, the recorded known finding) and under the constant-definedness rule 'any block seen' observed by the facts test (TokFacts.rule: the proof breaks if the tree reverts fix d0bedba4d8); list immediates have fewer than 2^64 items (SmallProg)",
+        "encode_decode_canonical is partial: it assumes the back end accepts the decoded program (EncodeTotalOnCheckedStatement is stated, not proved); 'assembled programs pass the static check' (AssembledChecksStatement) is stated, not proved: both are checked on the real code and against the model on every run",
         "text is compared at TOKEN level: lexing (comments, string/base64/base32 literals, octal/binary numerals), #pragma lines, macros, the pseudo-ops int/byte/addr/method with the constant-block optimiser, the type tracker and the off-curve salt are exercised by the implementation-only monitor (src lines) but not modelled or proved",
         "the model's tables are buildTables(OpSpecs) and the asm function names dumped from the current tree (tie F); a row with an asm function the model does not know makes the driver answer SKIP for lines using it",
         "decode treats a branch target that is not an instruction start as an error; the real Disassemble prints a label it never defines (such programs fail the real static check, and the harness compares disassemblies only for programs that pass it)",
         "static cost (pre-v4) is kept out of the way by a very large budget in the harness environment; version gates use the harness protocol (LogicSigVersion = LogicVersion)",
     ]
-    refresh(ctx, "TestVerifC34Facts", "OpTable.lean")
-    refresh(ctx, "TestVerifC33Facts", "AsmTable.lean")
+    refresh(ctx)
     proved = ctx.prove(["AlgoVerif.Props.C33"])
     okb, out = ctx.lean_build(["c33"])
     if not okb:
